@@ -98,7 +98,11 @@ pub fn decode_body(bytes: Vec<u8>, content_encoding: Option<&str>) -> Result<Str
                 // If encoding_rs returned a `Cow::Borrowed`, the bytes are guaranteed to be valid
                 // UTF-8, by virtue of being UTF-8 or being in the subset of ASCII that is the same
                 // in UTF-8.
-                Cow::Borrowed(_) => unsafe { String::from_utf8_unchecked(bytes) },
+                Cow::Borrowed(text) if text.len() == bytes.len() => unsafe {
+                    String::from_utf8_unchecked(bytes)
+                },
+                // A byte order mark was skipped: the text is only a part of the input.
+                Cow::Borrowed(text) => text.to_owned(),
                 Cow::Owned(string) => string,
             })
         }
@@ -164,6 +168,14 @@ mod decode_tests {
             input,
             "Defaults to utf-8"
         );
+    }
+
+    #[test]
+    fn byte_order_mark_is_not_part_of_the_text() {
+        let input = b"\xEF\xBB\xBFhello".to_vec();
+        if cfg!(feature = "encoding") {
+            assert_eq!(decode_body(input, None).unwrap(), "hello");
+        }
     }
 
     #[test]
